@@ -787,6 +787,14 @@ class Spectrum(Generic[_TData]):
 
     @classmethod
     def _unpickle(cls, args: tuple[Any, ...], kwargs: dict[str, Any]) -> Self:
+        data = kwargs.get("data")
+        if isinstance(data, np.ndarray):
+            owner = data
+            while isinstance(owner.base, np.ndarray):
+                owner = owner.base
+            if not owner.flags.owndata:
+                # Pickle protocol 5 rebuilds arrays on top of the pickle's buffer, which cannot grow.
+                kwargs = {**kwargs, "data": data.copy()}
         return cls(*args, **kwargs)
 
     def __repr__(self) -> str:
